@@ -72,7 +72,7 @@ def generate(rng: random.Random, tier: str) -> dict:
             s["timeout"] = rng.choice([30, 1.5, "45", "2.5", 0])
         if rng.random() < 0.2:
             s["extra"] = {"disabled": False, "note": "x"}
-        s["fault"] = rng.choice([None, None, None, "slow_answer", "chunked", "junk_first", "unstartable", "chatty_stderr"])
+        s["fault"] = rng.choice([None, None, None, "slow_answer", "chunked", "junk_first", "unstartable", "chatty_stderr", "busy_at_poll_edge"])
         if rng.random() < 0.12:
             # a configured environment that asks for quiet logging
             s["env"] = dict(s.get("env") or {}, **{rng.choice(["LOG_LEVEL", "LOGGING_LEVEL"]): rng.choice(["ERROR", "error", "CRITICAL", "Critical"])})
@@ -90,7 +90,7 @@ def generate(rng: random.Random, tier: str) -> dict:
         names = [s["name"] for s in rng.sample(servers, k)]
     else:
         names = [rng.choice(servers)["name"]]
-    return {"v": 1, "invalid_how": rng.choice(["commas", "truncated_at_line_boundary", "missing_final_brace", "open_brace_only", "blank_lines", "empty_file"]),
+    return {"v": 1, "debug_logging": rng.random() < 0.2, "invalid_how": rng.choice(["commas", "truncated_at_line_boundary", "missing_final_brace", "open_brace_only", "blank_lines", "empty_file"]),
             "entry": entry, "servers": servers, "names": names, "malformed": malformed, "unknown_pos": rng.randrange(0, 5),
             "cmd_name": rng.choice(["cmd", "interactive_mode", "chat_run"]), "extra_top": rng.random() < 0.2}
 
@@ -135,9 +135,18 @@ def execute(scn: dict) -> dict:
     saved_env = {k_: os.environ.get(k_) for k_ in ("TERM", "LOGNAME")}
     os.environ["TERM"] = env_mark
     os.environ["LOGNAME"] = "user-" + env_mark
+    import logging as _logging
+    root = _logging.getLogger()
+    old_level = root.level
+    old_disable = root.manager.disable
+    if scn.get("debug_logging"):
+        root.setLevel(_logging.DEBUG)   # the host application runs with debug logging (the CLI's --verbose does the same)
+        _logging.disable(_logging.NOTSET)   # (the runner silences logging globally; what is emitted goes to the swallowed stderr anyway)
     try:
         return _execute(scn)
     finally:
+        root.setLevel(old_level)
+        _logging.disable(old_disable)
         for k_, v_ in saved_env.items():
             if v_ is None:
                 os.environ.pop(k_, None)
@@ -212,6 +221,8 @@ def _execute(scn: dict) -> dict:
                     pieces = [data[:7], data[7:20], data[20:]]
                 if fault == "slow_answer":
                     delay = ticks(400)
+                if fault == "busy_at_poll_edge" and o["method"] == "initialize":
+                    delay = ticks(511)   # becomes readable one tick before the client's 0.5 s poll ends; the loop is busy for two ticks just then
                 if fault == "junk_first":
                     pieces = [b"Starting server...\n", b"WARNING: something\n", data]
                 return [(delay, pieces)]
@@ -226,6 +237,8 @@ def _execute(scn: dict) -> dict:
             c = {"read_mode": "eager", "responder": responder_for(child_idx), "term_latency": ticks(1), "eof_exit_latency": ticks(1)}
             if spec.get("fault") == "unstartable":
                 c["spawn_error"] = "FileNotFoundError"
+            if spec.get("fault") == "busy_at_poll_edge":
+                c["read_burn_at"] = {0: ticks(2)}
             if spec.get("fault") == "chatty_stderr":
                 c["stderr_chatter"] = 200_000   # more diagnostics on stderr than a pipe holds, written before the first answer
                 sim.fault("child_writes_over_64k_to_stderr")
